@@ -15,7 +15,7 @@ def run(ctx):
                 "both must return exactly that one value (reals within 1e-6).  Seeded random trees add depth and unicode names.  "
                 "Non-trivial = value containing a byte outside [A-Za-z0-9]; distinct by hash.")
     ctx.assumptions = ["serializer hooks call the private serializers directly (verif_serialize, verif_incremental_write_object)",
-                       "string values that are not valid UTF-8 go in as Object::ByteString, the others as Object::String"]
+                       "string values that are not valid UTF-8 go in as Object::ByteString (bytes must round-trip), the others as Object::String (a text string: the characters must round-trip under TextString!DecodeText)"]
     cfg = "MCObjValues_thorough" if thorough else "MCObjValues"
     vf = os.path.join(ctx.work, "values.out")
     res = vlib.tlc("syntax", "MCObjValues", cfg=cfg, workers=1, timeout=3000, out_file=vf, xmx="8g")
@@ -38,6 +38,8 @@ def run(ctx):
         if isinstance(v, dict):
             if v.get("t") in ("str", "name"):
                 return any(not (48 <= b <= 57 or 65 <= b <= 90 or 97 <= b <= 122) for b in v.get("b", []))
+            if v.get("t") == "text":
+                return any(not (48 <= b <= 57 or 65 <= b <= 90 or 97 <= b <= 122) for b in v.get("cps", []))
             return any(nontrivial(x) for x in v.values())
         if isinstance(v, list):
             return any(nontrivial(x) for x in v)
@@ -52,7 +54,7 @@ def run(ctx):
 
     def flip_byte(evs):
         for e in evs:
-            if e["ev"] == "case" and e["value"]["t"] == "str" and len(e["value"]["b"]) >= 1 and e["bytes"] and e["bytes"][0] == 40 and 65 in e["bytes"]:
+            if e["ev"] == "case" and e["value"]["t"] == "text" and len(e["value"]["cps"]) >= 1 and e["bytes"] and e["bytes"][0] == 40 and 65 in e["bytes"]:
                 e["bytes"][e["bytes"].index(65)] = 66
                 return True
         return False
